@@ -40,40 +40,50 @@ Proof.
         -- assert (Ey : y = 0) by lra. subst y. rewrite Er, Rabs_R0. split; ring.
 Qed.
 
+(* the generated trigonometric radius = the executable (cos, sin)-pair form, whatever the algebraic form of the code's sums *)
 Lemma elliptical_radius_R_is_cs y x angle q :
   elliptical_radius_from y x angle q =
   @elliptical_radius_from_cs ROps y x (cos (radiansR angle), sin (radiansR angle)) q.
 Proof.
   unfold elliptical_radius_from, elliptical_radius_from_cs. cbv zeta. rops.
   destruct (polar y x) as [Pc Ps]. cbv zeta in Pc, Ps.
+  repeat match goal with |- context [sqrt ?S * _ (atan2R y x + _)] =>
+    lazymatch S with
+    | x * x + y * y => fail
+    | _ => replace S with (x * x + y * y) by ring
+    end
+  end.
   set (r := sqrt (x * x + y * y)) in *. set (th := atan2R y x) in *. set (a := radiansR angle).
-  assert (Ex : r * cos (th + a) = x * cos a - y * sin a) by (rewrite cos_plus; transitivity ((r * cos th) * cos a - (r * sin th) * sin a); [ring | rewrite Pc, Ps; reflexivity]).
-  assert (Ey : r * sin (th + a) = y * cos a + x * sin a) by (rewrite sin_plus; transitivity ((r * sin th) * cos a + (r * cos th) * sin a); [ring | rewrite Pc, Ps; reflexivity]).
-  rewrite Ex, Ey. reflexivity.
-Qed.
-
-Lemma elliptical_R_is_cs sh s R q angle c :
-  mask_2d_elliptical_from sh s R q angle c =
-  @mask_2d_elliptical_from_cs ROps sh s R q (cos (radiansR angle), sin (radiansR angle)) c.
-Proof.
-  unfold mask_2d_elliptical_from, mask_2d_elliptical_from_cs. cbv zeta. rops.
-  apply map_ext; intros y; apply map_ext; intros x. rewrite elliptical_radius_R_is_cs. reflexivity.
-Qed.
-Lemma elliptical_annular_R_is_cs sh s Ri qi ai Ro qo ao c :
-  mask_2d_elliptical_annular_from sh s Ri qi ai Ro qo ao c =
-  @mask_2d_elliptical_annular_from_cs ROps sh s Ri qi (cos (radiansR ai), sin (radiansR ai)) Ro qo (cos (radiansR ao), sin (radiansR ao)) c.
-Proof.
-  unfold mask_2d_elliptical_annular_from, mask_2d_elliptical_annular_from_cs. cbv zeta. rops.
-  apply map_ext; intros y; apply map_ext; intros x. rewrite !elliptical_radius_R_is_cs. reflexivity.
+  rewrite cos_plus, sin_plus. f_equal. rewrite <- Pc, <- Ps. unfold Rdiv. ring.
 Qed.
 
 (* the code's elliptical constructors = the specification, with (cos, sin) of the angle in degrees *)
 Lemma elliptical_R_is_spec H W sy sx R q angle cy cx : sy <> 0 -> sx <> 0 -> q <> 0 ->
   mask_2d_elliptical_from (H, W) (sy, sx) R q angle (cy, cx) =
   mask_of (H, W) (@ell_inside ROps (H, W) (sy, sx) R q (cos (radiansR angle), sin (radiansR angle)) (cy, cx)).
-Proof. intros. rewrite elliptical_R_is_cs. now apply elliptical_is_spec. Qed.
+Proof.
+  intros Hy Hx Hq. unfold mask_2d_elliptical_from. cbv zeta. mask_pointwise y x.
+  rewrite elliptical_radius_R_is_cs, (proj1 (ell_cs_sqrt _ _ _ _ q Hq)). code_ell2_is H W sy sx cy cx y x.
+  unfold ell_inside. destruct (@sqrt_le ROps _ R); reflexivity.
+Qed.
 Lemma elliptical_annular_R_is_spec H W sy sx Ri qi ai Ro qo ao cy cx : sy <> 0 -> sx <> 0 -> qi <> 0 -> qo <> 0 ->
   mask_2d_elliptical_annular_from (H, W) (sy, sx) Ri qi ai Ro qo ao (cy, cx) =
   mask_of (H, W) (@ellann_inside ROps (H, W) (sy, sx) Ri qi (cos (radiansR ai), sin (radiansR ai)) Ro qo
                                  (cos (radiansR ao), sin (radiansR ao)) (cy, cx)).
-Proof. intros. rewrite elliptical_annular_R_is_cs. now apply elliptical_annular_is_spec. Qed.
+Proof.
+  intros Hy Hx Hqi Hqo. unfold mask_2d_elliptical_annular_from. cbv zeta. mask_pointwise y x.
+  rewrite !elliptical_radius_R_is_cs, (proj1 (ell_cs_sqrt _ _ _ _ qi Hqi)), (proj1 (ell_cs_sqrt _ _ _ _ qo Hqo)).
+  code_ell2_is H W sy sx cy cx y x.
+  unfold ellann_inside. cbv zeta. destruct (@sqrt_ge ROps _ Ri), (@sqrt_le ROps _ Ro); reflexivity.
+Qed.
+
+(* hence the executable form that the correspondence run compares with the implementation IS the generated code *)
+Lemma elliptical_R_is_cs H W sy sx R q angle cy cx : sy <> 0 -> sx <> 0 -> q <> 0 ->
+  mask_2d_elliptical_from (H, W) (sy, sx) R q angle (cy, cx) =
+  @mask_2d_elliptical_from_cs ROps (H, W) (sy, sx) R q (cos (radiansR angle), sin (radiansR angle)) (cy, cx).
+Proof. intros. rewrite elliptical_R_is_spec, elliptical_is_spec by assumption. reflexivity. Qed.
+Lemma elliptical_annular_R_is_cs H W sy sx Ri qi ai Ro qo ao cy cx : sy <> 0 -> sx <> 0 -> qi <> 0 -> qo <> 0 ->
+  mask_2d_elliptical_annular_from (H, W) (sy, sx) Ri qi ai Ro qo ao (cy, cx) =
+  @mask_2d_elliptical_annular_from_cs ROps (H, W) (sy, sx) Ri qi (cos (radiansR ai), sin (radiansR ai)) Ro qo
+                                       (cos (radiansR ao), sin (radiansR ao)) (cy, cx).
+Proof. intros. rewrite elliptical_annular_R_is_spec, elliptical_annular_is_spec by assumption. reflexivity. Qed.
